@@ -297,6 +297,171 @@ def run_rot(u):
         discharge(explore(run, 'orbit '), 'orbit ')
     return rep
 
+C7 = ['x', 'y', 'z', 'vx', 'vy', 'vz', 'm']
+C6 = C7[:6]
+
+def run_frames(u):
+    """frame shifts and linear combinations of simulations, real C code over the reals with symbolic particle data.
+    move_to_com with variational particles: the transformed first-order (second-order) variational particle must be the first
+    (mixed second) derivative of the transformed real particle x_i - sum(m x)/sum(m), differentiating with d x = variational x,
+    d m = variational m — computed here by symbolic differentiation of the textbook centre of mass, independent of the code's
+    closed form."""
+    sys.path.insert(0, os.path.dirname(os.path.abspath(__file__)))
+    from c16 import Deriv
+    rep = Report(); kind, N = u['kind'], u['N']
+    label = "frames %s N=%d " % (kind, N)
+    dom = Real(); ctx = PathCtx(); I = new_interp(dom, ctx); I.concrete_env = True
+    L = build.layout(); sim = Sim(I)
+    for i in range(N): sim.add(m=1.0)
+    prover = Prover(t_inproc_ms=u.get('t_ms', 20000), use_external=True, t_ext_s=60)
+    ob = Obligations(rep, prover, label)
+    V = {}
+    def fill(base, tag, comps=C7):
+        for i in range(N):
+            for c in comps:
+                V[(tag, i, c)] = dom.fresh('%s_%s%d' % (tag, c, i)); sim.particle(base + i).set(c, V[(tag, i, c)])
+    def vals_of(model):
+        return {"%s_%s%d" % k: float(model_value(model, t) or 0.0) for k, t in V.items()}
+    if kind in ('com', 'com_var1', 'com_var2'):
+        order = {'com': 0, 'com_var1': 1, 'com_var2': 2}[kind]
+        ia = ib = ic = None
+        if order >= 1: ia = I.call('@reb_simulation_add_variation_1st_order', [sim.ptr, 0xffffffff])
+        if order == 2:
+            ib = I.call('@reb_simulation_add_variation_1st_order', [sim.ptr, 0xffffffff])
+            ic = I.call('@reb_simulation_add_variation_2nd_order', [sim.ptr, 0xffffffff, ia, ib])
+        fill(0, 'r')
+        if order >= 1: fill(ia, 'a')
+        if order == 2: fill(ib, 'b'); fill(ic, 'c')
+        I.call('@reb_simulation_move_to_com', [sim.ptr])
+        M = sum((V[('r', i, 'm')] for i in range(N)), z3.RealVal(0))
+        assum = [V[('r', i, 'm')] > 0 for i in range(N)] + [b != 0 for b in dom.divs]
+        def on_sat(model):
+            vals = vals_of(model); ok, detail = native_frames(u, vals)
+            return ok, 'C20:frames:%s' % kind, detail, dict(kind='frames', unit=u, vals=vals)
+        invM = dom.inv(M) if hasattr(dom, 'inv') else None
+        for c in C6:
+            S = sum((V[('r', i, 'm')] * V[('r', i, c)] for i in range(N)), z3.RealVal(0))
+            Xc = S * invM
+            after = [dom.z(sim.particle(i).get(c)) for i in range(N)]
+            ob.prove("move_to_com: sum m %s' == 0 (reference point at the origin / at rest)" % c, sum((V[('r', i, 'm')] * after[i] for i in range(N)), z3.RealVal(0)) == 0, assum, axioms=dom.axioms, on_sat=on_sat, domain='REAL')
+            for i in range(1, N):
+                ob.prove("move_to_com: relative coordinate %s_%d - %s_0 unchanged" % (c, i, c), after[i] - after[0] == V[('r', i, c)] - V[('r', 0, c)], assum, axioms=dom.axioms, on_sat=on_sat, domain='REAL')
+            if order >= 1:
+                for tag, base in (('a', ia), ('b', ib)):
+                    if base is None: continue
+                    D1 = Deriv(dom, [(V[('r', i, cc)], V[(tag, i, cc)]) for i in range(N) for cc in C7])
+                    dX = D1.d(Xc)
+                    for i in range(N):
+                        ob.prove("move_to_com: first-order variational %s of particle %d (set %s) is the derivative of the shifted coordinate" % (c, i, tag), dom.z(sim.particle(base + i).get(c)) == V[(tag, i, c)] - dX, assum, axioms=dom.axioms, on_sat=on_sat, domain='REAL + symbolic differentiation')
+            if order == 2:
+                Da = Deriv(dom, [(V[('r', i, cc)], V[('a', i, cc)]) for i in range(N) for cc in C7])
+                Db = Deriv(dom, [(V[('r', i, cc)], V[('b', i, cc)]) for i in range(N) for cc in C7] + [(V[('a', i, cc)], V[('c', i, cc)]) for i in range(N) for cc in C7])
+                ddX = Db.d(Da.d(Xc))
+                for i in range(N):
+                    ob.prove("move_to_com: second-order variational %s of particle %d is the mixed second derivative of the shifted coordinate" % (c, i), dom.z(sim.particle(ic + i).get(c)) == V[('c', i, c)] - ddX, assum, axioms=dom.axioms, on_sat=on_sat, domain='REAL + symbolic differentiation')
+        for tag, base in (('r', 0), ('a', ia), ('b', ib), ('c', ic)):
+            if base is None: continue
+            for i in range(N): ob.prove("move_to_com leaves mass %s%d alone" % (tag, i), dom.z(sim.particle(base + i).get('m')) == V[(tag, i, 'm')], assum, domain='REAL')
+        ob.witness("inputs", assum, axioms=dom.axioms)
+    elif kind == 'hel':
+        ia = I.call('@reb_simulation_add_variation_1st_order', [sim.ptr, 0xffffffff])
+        fill(0, 'r'); fill(ia, 'a')
+        I.call('@reb_simulation_move_to_hel', [sim.ptr])
+        for c in C6:
+            ob.prove("move_to_hel: particle 0 %s == 0" % c, dom.z(sim.particle(0).get(c)) == 0, [], domain='REAL')
+            for i in range(1, N): ob.prove("move_to_hel: %s_%d relative to particle 0 unchanged" % (c, i), dom.z(sim.particle(i).get(c)) == V[('r', i, c)] - V[('r', 0, c)], [], domain='REAL')
+        for i in range(N):
+            for c in C7: ob.prove("move_to_hel leaves variational particle %d.%s alone (documented)" % (i, c), dom.z(sim.particle(ia + i).get(c)) == V[('a', i, c)], [], domain='REAL')
+    elif kind == 'linear':
+        fill(0, 'r')
+        sim2 = Sim(I)
+        for i in range(N): sim2.add(m=1.0)
+        W = {}
+        for i in range(N):
+            for c in C7:
+                W[(i, c)] = dom.fresh('s_%s%d' % (c, i)); sim2.particle(i).set(c, W[(i, c)])
+        sp, sv = dom.fresh('scalar_pos'), dom.fresh('scalar_vel')
+        I.call('@reb_simulation_imul', [sim.ptr, sp, sv])
+        for i in range(N):
+            for c in C6: ob.prove("imul: %s_%d scaled by scalar_%s" % (c, i, 'pos' if c in 'xyz' else 'vel'), dom.z(sim.particle(i).get(c)) == V[('r', i, c)] * (sp if c in ('x', 'y', 'z') else sv), [], domain='REAL')
+            ob.prove("imul leaves m_%d alone" % i, dom.z(sim.particle(i).get('m')) == V[('r', i, 'm')], [], domain='REAL')
+        r1 = I.call('@reb_simulation_iadd', [sim.ptr, sim2.ptr])
+        ob.prove("iadd returns 0 for equal particle numbers", r1 == 0, [], domain='control')
+        for i in range(N):
+            for c in C6: ob.prove("iadd: %s_%d" % (c, i), dom.z(sim.particle(i).get(c)) == V[('r', i, c)] * (sp if c in ('x', 'y', 'z') else sv) + W[(i, c)], [], domain='REAL')
+        I.call('@reb_simulation_isub', [sim.ptr, sim2.ptr]); I.call('@reb_simulation_isub', [sim.ptr, sim2.ptr])
+        for i in range(N):
+            for c in C6: ob.prove("isub twice after iadd: %s_%d" % (c, i), dom.z(sim.particle(i).get(c)) == V[('r', i, c)] * (sp if c in ('x', 'y', 'z') else sv) - W[(i, c)], [], domain='REAL')
+            for c in C7: ob.prove("second operand untouched: %s_%d" % (c, i), dom.z(sim2.particle(i).get(c)) == W[(i, c)], [], domain='REAL')
+        sim3 = Sim(I); sim3.add(m=1.0)
+        if N != 1:
+            ob.prove("iadd rejects a different particle number", I.call('@reb_simulation_iadd', [sim.ptr, sim3.ptr]) != 0, [], domain='control')
+            ob.prove("isub rejects a different particle number", I.call('@reb_simulation_isub', [sim.ptr, sim3.ptr]) != 0, [], domain='control')
+    rep.paths += 1; rep.add_interp(I)
+    if kind.startswith('com'):
+        bad, detail = native_frames(u, None); rep.replays += 1
+        if bad: rep.violations.append(dict(key='C20:frames:%s' % kind, what=detail, replay=dict(kind='frames', unit=u, vals=None), obligation=label + 'native twin'))
+        else: rep.witnesses += 1
+    return rep
+
+def native_frames(u, vals):
+    """native replay: move_to_com on the given (or generic) data; variational particles against central finite differences of the
+    same frame change applied to x +- h dx, m +- h dm"""
+    global _nat
+    if _nat is None: _nat = Native()
+    import random
+    N = u['N']; order = {'com': 0, 'com_var1': 1, 'com_var2': 2}[u['kind']]
+    rnd = random.Random(7)
+    tags = ['r'] + (['a'] if order >= 1 else []) + (['b', 'c'] if order == 2 else [])
+    if vals is None:
+        vals = {"%s_%s%d" % (t, c, i): rnd.uniform(-1, 1) for t in tags for i in range(N) for c in C7}
+        for i in range(N): vals['r_m%d' % i] = rnd.uniform(0.5, 2.0)
+    def shifted(pdata):
+        """pdata: list of dicts for real particles; returns coordinates after native move_to_com"""
+        ns = _nat.create()
+        try:
+            for p in pdata: ns.add(**p)
+            ns.call('reb_simulation_move_to_com')
+            return [[ns.particle(i).get(c) for c in C6] for i in range(N)]
+        finally: ns.free()
+    ns = _nat.create()
+    try:
+        for i in range(N): ns.add(**{c: vals['r_%s%d' % (c, i)] for c in C7})
+        base = {}
+        if order >= 1: base['a'] = ns.call('reb_simulation_add_variation_1st_order', ctypes.c_int(-1), restype=ctypes.c_int)
+        if order == 2:
+            base['b'] = ns.call('reb_simulation_add_variation_1st_order', ctypes.c_int(-1), restype=ctypes.c_int)
+            base['c'] = ns.call('reb_simulation_add_variation_2nd_order', ctypes.c_int(-1), ctypes.c_int(base['a']), ctypes.c_int(base['b']), restype=ctypes.c_int)
+        for t, b in base.items():
+            for i in range(N):
+                for c in C7: ns.particle(b + i).set(c, vals['%s_%s%d' % (t, c, i)])
+        ns.call('reb_simulation_move_to_com')
+        bad = []
+        Mtot = sum(vals['r_m%d' % i] for i in range(N))
+        for k, c in enumerate(C6):
+            s_ = sum(vals['r_m%d' % i] * ns.particle(i).get(c) for i in range(N))
+            if abs(s_) > 1e-9 * (sum(abs(vals['r_m%d' % i] * vals['r_%s%d' % (c, i)]) for i in range(N)) + 1e-300): bad.append(('sum m ' + c, s_))
+        def P(sa, sb):
+            return [{c: vals['r_%s%d' % (c, i)] + sa * vals.get('a_%s%d' % (c, i), 0.0) + sb * vals.get('b_%s%d' % (c, i), 0.0) + sa * sb * vals.get('c_%s%d' % (c, i), 0.0) for c in C7} for i in range(N)]
+        h = 1e-4
+        scale = max(1.0, max(abs(v) for v in vals.values()))
+        if order >= 1:
+            for t in (['a', 'b'] if order == 2 else ['a']):
+                up = shifted(P(h, 0) if t == 'a' else P(0, h)); dn = shifted(P(-h, 0) if t == 'a' else P(0, -h))
+                for i in range(N):
+                    for k, c in enumerate(C6):
+                        fd = (up[i][k] - dn[i][k]) / (2 * h); got = ns.particle(base[t] + i).get(c)
+                        if abs(fd - got) > 1e-5 * scale ** 3: bad.append((t, i, c, got, fd))
+        if order == 2:
+            pp, pm, mp, mm = shifted(P(h, h)), shifted(P(h, -h)), shifted(P(-h, h)), shifted(P(-h, -h))
+            for i in range(N):
+                for k, c in enumerate(C6):
+                    fd = (pp[i][k] - pm[i][k] - mp[i][k] + mm[i][k]) / (4 * h * h); got = ns.particle(base['c'] + i).get(c)
+                    if abs(fd - got) > 1e-4 * scale ** 4: bad.append(('c', i, c, got, fd))
+        return bool(bad), "native move_to_com (%s, N=%d): %s" % (u['kind'], N, ("variational / frame values differ from finite differences: %r" % bad[:4]) if bad else "frame and variational particles agree with finite differences")
+    finally:
+        ns.free()
+
 _nat = None
 def native_from_to(vals):
     global _nat
@@ -318,9 +483,11 @@ def native_from_to(vals):
     return bad, key, "reb_rotation_init_from_to(from=%r, to=%r): |q|^2=%.6g, rotated from/|from| differs from to/|to| by %.3g" % ((fr.x, fr.y, fr.z), (to.x, to.y, to.z), nq, err), dict(vals=vals)
 
 def replay(data):
+    if data.get('kind') == 'frames': return native_frames(data['unit'], data['vals'])
     r = native_from_to(data['vals']); return r[0], r[2]
 
 def worker(u):
+    if u['what'] == 'frames': return run_frames(u)
     return run_units(u) if u['what'] == 'units' else run_rot(u)
 
 def main():
@@ -328,11 +495,15 @@ def main():
     t0 = time.time()
     build.module(); build.layout(); build.build_native()
     us = [dict(what='units', tier=tier, slice=k_, nslices=7) for k_ in range(7)] + [dict(what=w, ext=True, t_ms=6000 if tier == 'quick' else 60000) for w in ('lemmas', 'normalize', 'angle_axis', 'from_to_reduced', 'from_to_antiparallel', 'orbit')]
+    for N in ((2, 3) if tier == 'quick' else (2, 3, 4)):
+        for kind in ('com', 'com_var1', 'hel', 'linear'): us.append(dict(what='frames', kind=kind, N=N, t_ms=20000 if tier == 'quick' else 120000))
+    us.append(dict(what='frames', kind='com_var2', N=2, t_ms=30000 if tier == 'quick' else 120000))
+    if tier == 'thorough': us.append(dict(what='frames', kind='com_var2', N=3, t_ms=300000))
     rep = run_units_(us)
     code = finish(PID, tier, rep, t0,
         bounds=dict(unit_triples='all (exhaustive over names)', rotation_constructors=['angle_axis', 'from_to (3 branches)', 'orbit'], lemmas=['L1 irotate=q v q*', 'L2 composition', 'L3 norm product']),
         assumptions=['real arithmetic (rounding outside)', 'float constants enter z3 through their shortest decimal repr', 'vectors non-zero; unit quaternion where stated'],
-        outside=['rounding error magnitude', 'the generic >90 degree case of init_from_to is covered only through its two reduced factors + lemmas L2/L3 (the monolithic NRA query times out: 878 s, inconclusive)', 'init_to_new_axes and to_orbital (inverse trigonometric functions)', 'move_to_hel/com and imul/iadd/isub (covered with C12/C04 when built)', 'units added by users at run time'],
+        outside=['rounding error magnitude', 'the generic >90 degree case of init_from_to is covered only through its two reduced factors + lemmas L2/L3 (the monolithic NRA query times out: 878 s, inconclusive)', 'init_to_new_axes and to_orbital (inverse trigonometric functions)', 'move_to_com with test-particle variations (documented as not affecting the centre of mass); N_real > 4', 'units added by users at run time'],
         domain_note='REAL; Python units code executed on z3 Real terms; quaternion algebra over the reals with sqrt/sin/cos atoms')
     sys.exit(code)
 
